@@ -418,6 +418,36 @@ fn run_macro_literals() -> Result<(), (String, String)> {
     ok("arr![arr![1], arr![2], arr![3]]", guarded(|| arr![arr![1.0], arr![2.0], arr![3.0]]), &[3, 1], &[1.0, 2.0, 3.0])?;
     ok("arr![arr![arr![1,2],arr![3,4]], arr![arr![5,6],arr![7,8]]]", guarded(|| arr![arr![arr![1.0, 2.0], arr![3.0, 4.0]], arr![arr![5.0, 6.0], arr![7.0, 8.0]]]), &[2, 2, 2], &[1.0, 2.0, 3.0, 4.0, 5.0, 6.0, 7.0, 8.0])?;
     ok("arr![arr![arr![1],arr![2],arr![3]]]", guarded(|| arr![arr![arr![1.0], arr![2.0], arr![3.0]]]), &[1, 3, 1], &[1.0, 2.0, 3.0])?;
+    // element expressions with side effects are evaluated once each, left to right
+    {
+        let flat = guarded(|| {
+            let mut c = 0.0;
+            let mut next = || {
+                c += 1.0;
+                c
+            };
+            arr![next(), next(), next()]
+        });
+        ok("arr![next(), next(), next()] over the counter 1, 2, 3, ..", flat, &[3], &[1.0, 2.0, 3.0])?;
+        let nested = guarded(|| {
+            let mut c = 0.0;
+            let mut next = || {
+                c += 1.0;
+                c
+            };
+            arr![arr![next(), next()], arr![next(), next()]]
+        });
+        ok("arr![arr![next(), next()], arr![next(), next()]] over the counter", nested, &[2, 2], &[1.0, 2.0, 3.0, 4.0])?;
+        let rows = guarded(|| {
+            let mut k = 0.0;
+            let mut row = || {
+                k += 10.0;
+                arr![k, k + 1.0]
+            };
+            arr![row(), row(), row()]
+        });
+        ok("arr![row(), row(), row()] with rows built by a stateful closure", rows, &[3, 2], &[10.0, 11.0, 20.0, 21.0, 30.0, 31.0])?;
+    }
     // ragged rows, also where the lengths add up to rows x (length of the first row)
     refused("arr![arr![1,2], arr![3,4,5], arr![6]]", guarded(|| arr![arr![1.0, 2.0], arr![3.0, 4.0, 5.0], arr![6.0]]))?;
     refused("arr![arr![1,2], arr![3], arr![4,5,6]]", guarded(|| arr![arr![1.0, 2.0], arr![3.0], arr![4.0, 5.0, 6.0]]))?;
